@@ -105,6 +105,16 @@ def subsecond_sets():
         zs.lines = [("id%02d %s.%09d tail" % (i, t.strftime("%Y-%m-%dT%H:%M:%S"), ns), (t, ns)) for i, (t, ns) in enumerate(stamps)]
         zs.lines.insert(5, ("no stamp here", None))
         out.append(zs)
+        # the same as times of day alone (the expression is then compared by the time comparison, not the date-time one), with and
+        # without a fraction in the expression's own value
+        zt = ZSet([(">%s.%09d" % (v1[0].strftime("%H:%M:%S"), v1[1]), lambda d, v=v1: key(d) > v),
+                   ("<=%s.%09d" % (v2[0].strftime("%H:%M:%S"), v2[1]), lambda d, v=v2: key(d) <= v),
+                   ("!=%s.%09d" % (v3[0].strftime("%H:%M:%S"), v3[1]), lambda d, v=v3: key(d) != v),
+                   (">%s.%09d" % (v3[0].strftime("%H:%M:%S"), 0), lambda d, v=(v3[0], 0): key(d) > v)])
+        zt.args = ["-i", "%T.%N"]
+        zt.lines = [("id%02d %s.%09d tail" % (i, t.strftime("%H:%M:%S"), ns), (t, ns)) for i, (t, ns) in enumerate(stamps)]
+        zt.lines.insert(3, ("no stamp here", None))
+        out.append(zt)
     return out
 
 
